@@ -214,6 +214,11 @@ def generated_fonts():
         if key == "vf-mark-1axis":
             font = tinyfont.reload(font)
             _add_feature_variations(font)
+        if "comp" in font.getGlyphOrder() and "fvar" not in font:
+            # HarfBuzz shifts a glyph by lsb - xMin: keep them equal so that outlines compare raw
+            font = tinyfont.reload(font)
+            adv, _lsb = font["hmtx"].metrics["comp"]
+            font["hmtx"].metrics["comp"] = (adv, font["glyf"]["comp"].xMin)
         if key in ("gsub-ttf", "vf-kern-1axis"):
             _add_names(font)
             _add_unknown_table(font)
@@ -406,6 +411,12 @@ def unicode_map(font):
     return cm, uvs
 
 
+def _ignorable(c):
+    from .c07_check import is_default_ignorable
+
+    return is_default_ignorable(c) or c in (0x0A, 0x0D)
+
+
 def focus_chars(data, n, seed, all_features):
     """The request alphabet of a font with many mapped characters: the n characters that take
     part in the most layout-active texts (a single or a pair of characters whose HarfBuzz
@@ -416,9 +427,9 @@ def focus_chars(data, n, seed, all_features):
     cm, uvs = unicode_map(font)
     chars = sorted(cm)
     if len(chars) <= n:
-        return chars + sorted({s for (_b, s) in uvs} - set(chars))
+        return chars + sorted({s for (_b, s) in uvs} - set(chars))[:max(0, n - len(chars))]
     lg = layout_glyphs(font)
-    cand = [c for c in chars if cm[c] in lg and c >= 0x20][:48]
+    cand = [c for c in chars if cm[c] in lg and not _ignorable(c)][:48]
     hbf = hbridge.HBFont(data)
     score = {c: 0 for c in cand}
     plain = {}
@@ -441,6 +452,6 @@ def focus_chars(data, n, seed, all_features):
         # similar scores, so a window keeps them together
         start = (seed * (n // 2)) % (len(active) - n + 1)
         active = active[start:start + n]
-    rest = [c for c in cand if c not in active] + [c for c in chars if c not in cand and c >= 0x20]
+    rest = [c for c in cand if c not in active] + [c for c in chars if c not in cand and not _ignorable(c) and c >= 0x20]
     # always keep one character without layout involvement when there is room
     return sorted((active + rest)[:n])
